@@ -111,6 +111,10 @@ def worker(args):
         op = hist[-1]
         if op[0] not in WATCH or x.obs[-1][0] != 'exc': return
         sub.count('failing_calls_seen')
+        if sx.latent_conflict(fixture, hist[:-1]):
+            # an earlier operation of the history holds a key that exists unloaded in the database: every flush fails from then on,
+            # at a point that depends on what is loaded - the twins differ in where, not in what the failing call left behind
+            sub.count('histories_with_a_latent_key_conflict_skipped'); return
         if x.died or x.obs[-1][1] in FLUSH_EXC:
             sub.count('failures_raised_by_implicit_flush_skipped'); return
         a, b = twins(env, fixture, hist[:-1], op)
